@@ -195,6 +195,13 @@ func (l *LLA) Apply(ra *ndp.RouterAdvertisement) error {
 		return nil
 	}
 
+	// The option can only carry a 48-bit address: links with another kind of
+	// hardware address (tunnels, IP over InfiniBand) do without it, as any
+	// router advertisement carrying it could not be sent.
+	if len(l.Addr) != 6 {
+		return nil
+	}
+
 	ra.Options = append(ra.Options, &ndp.LinkLayerAddress{
 		Direction: ndp.Source,
 		Addr:      l.Addr,
